@@ -171,10 +171,76 @@ def check_arrays(rep, db):
                               "(%s vs %s)" % (e0, e1), f["loc"], inst)
         else:
             if elemwise:
-                rep.ok("R-C06-array", site(f), "element-wise conversion (%d stores in loop)" % len(elemwise), inst)
+                why = elementwise_complete(db, f, paths, T0, T1)
+                if why is None:
+                    rep.ok("R-C06-array", site(f), "element-wise conversion of every element (dims %s)" % dims_of(T0), inst)
+                else:
+                    rep.violation("R-C06-array", site(f) + " [coverage]", why, f["loc"], inst)
             else:
                 rep.violation("R-C06-array", site(f), "array conversion neither copies bytes nor converts each element", f["loc"], inst)
     rep.require(n >= 10, "%s: only %d array instantiations of convert_type_fundamental_or_array" % (db.label, n))
+
+
+def dims_of(t):
+    import re
+    c = (t.get("c") or "").replace("const ", "").replace("volatile ", "")
+    dims = []
+    while True:
+        m = re.match(r"^std::array<(.*), (\d+)>$", c.strip())
+        if not m:
+            break
+        dims.append(int(m.group(2)))
+        c = m.group(1)
+    dims += [int(x) for x in re.findall(r"\[(\d+)\]", c)]
+    return dims
+
+
+def index_path(lv, root):
+    out = []
+    while isinstance(lv, tuple) and lv and lv[0] == "idx":
+        out.append(lv[2])
+        lv = lv[1]
+    return (list(reversed(out)) if lv == root else None)
+
+
+def elementwise_complete(db, f, paths, T0, T1):
+    """every element of the destination is written from the element with the same indices of the source:
+    one index per dimension, each loop variable running 0 .. extent-1 in steps of 1"""
+    from .. import q
+    from ..engine import C, lin, subterms
+    dims = dims_of(T0)
+    to, fr = ("pobj", f["params"][0]["n"]), ("pobj", f["params"][1]["n"])
+    seen_store = False
+    for p in paths:
+        for i, e in enumerate(p.events):
+            if e.kind != "STORE" or (e.extra or {}).get("rec"):
+                continue
+            if e.a[0] == "var":
+                continue
+            ip = index_path(e.a, to)
+            if ip is None:
+                if e.loop > 0 and e.a[0] in ("idx", "deref"):
+                    return "an element store goes to %s, which is not an element of the destination array addressed with one index per dimension" % fmt(e.a)[:100]
+                continue
+            seen_store = True
+            if len(ip) != len(dims):
+                return "destination of dimensions %s is written with %d index(es): elements beyond the first dimension's extent are never converted" % (dims, len(ip))
+            conds = q.conds_before(p, i)
+            for k, iv in enumerate(ip):
+                if ("cmp", "<", iv, C(dims[k])) not in conds:
+                    return "index %d of the element loop is not bounded by the extent %d of that dimension" % (k, dims[k])
+            srcs = []
+            for x in subterms(e.b):
+                if isinstance(x, tuple) and x and x[0] in ("rd", "vrd"):
+                    lv = x[1] if x[0] == "rd" else x[2]
+                    sp = index_path(lv, fr)
+                    if sp is not None:
+                        srcs.append(sp)
+            if not srcs or any(sp != ip for sp in srcs):
+                return "element %s of the destination is not converted from the element with the same indices of the source" % [fmt(x) for x in ip]
+    if not seen_store:
+        return "no element of the destination array is written"
+    return None
 
 
 def el_info(db, t):
